@@ -1119,6 +1119,59 @@ func runLayout(r *core.Run) {
 	} else {
 		r.BrokenAnchor("parse.BinaryWriter.WriteUint24")
 	}
+	if wf := r.Prog.SSAFunc("", "BinaryWriter", "WriteUint24"); wf != nil && w24 < 2 && len(wf.Params) == 2 {
+		// the three bytes may be put in order by data flow (a [3]byte filled big-endian, two elements swapped for
+		// little-endian, appended in one call): read the appended bytes off the paths of the function (peval.go)
+		w24 = 0 // the per-block reading above saw only part of the picture
+		p := &peval{r: r, fn: wf, syms: map[*ssa.Parameter]string{wf.Params[1]: "v"}, loops: true}
+		st := &peState{env: map[ssa.Value]interface{}{}}
+		p.run(st, wf.Blocks[0], nil, 0)
+		seen := map[string]bool{}
+		for _, pt := range p.paths {
+			if p.aborted || pt.outcome != "return" {
+				continue
+			}
+			order := "BigEndian"
+			for _, c := range pt.conds {
+				if strings.HasPrefix(c.sym, "order=") {
+					order = strings.TrimPrefix(c.sym, "order=")
+					if c.op == token.NEQ {
+						order = map[string]string{"LittleEndian": "BigEndian", "BigEndian": "LittleEndian"}[order]
+					}
+				}
+			}
+			m := map[int64]int64{}
+			pos := int64(0)
+			whole := true
+			for _, ev := range pt.events {
+				if ev.name != "append" {
+					continue
+				}
+				arr, isArr := ev.args[1].(*pArray)
+				if !isArr {
+					whole = false
+					continue
+				}
+				for _, e := range arr.e {
+					sh, isSh := e.(pShift)
+					if !isSh || sh.sym != "v" {
+						whole = false
+						continue
+					}
+					m[pos] = sh.k
+					pos++
+				}
+			}
+			if !whole || len(m) != 3 || seen[order] {
+				continue
+			}
+			seen[order] = true
+			n++
+			w24++
+			lay := layoutName(m, 3)
+			r.Check(lay == order, "WriteUint24 "+order+" layout", wf.Pos(), fmt.Sprint(m), fmt.Sprintf("bytes are emitted as position->shift %v on the %s path, which is %s", m, order, lay))
+		}
+	}
 	r.Check(w24 == 2, "WriteUint24 has an explicit layout per byte order", token.NoPos, "", fmt.Sprintf("found %d explicit 3-byte layouts in WriteUint24 (need one for each byte order): the 24-bit write can no longer be matched against the reader's layout", w24))
 	r.Floor("byte-layout expressions", n, 8)
 }
